@@ -282,3 +282,42 @@ Fixpoint sresult (s : wstream) : option N :=
   | SMergeGlobals s' _ | SMergeGDims s' _ _ | SForce s' _ | SOutputTo s' => sresult s'
   | STee a b => match sresult a with Some e => Some e | None => sresult b end
   end.
+
+(* ---- an adapter instance fed a SEQUENCE of entries ----
+   The adapters are structs (`MergeGlobals { stream, globals }`, `MergeGlobalDimensions { stream, global_dimensions,
+   global_dimensions_denylist }`, `Tee { s1, s2 }`, `ForceFlag(S, _)`); `next(&mut self, entry)` / `format(&mut self, ..)`
+   borrow their fields (the dimensions and the deny list are cloned into the per-entry wrapper) and assign none of
+   them, whatever the inner stream returns.  [snext] is one call: it returns the adapter as it is afterwards, the
+   Result and what each terminal was handed.  Terminals fail when told to: [fs] lists (terminal, index of the call,
+   kind: 0 = IoStreamError::Validation, 1 = IoStreamError::Io); terminals numbered 256 and up always fail. *)
+Definition failspec := list (N * nat * N).
+Fixpoint fails_at (fs : failspec) (id : N) (k : nat) : option N :=
+  match fs with
+  | [] => None
+  | (id', k', kind) :: r => if N.eqb id id' && Nat.eqb k k' then Some kind else fails_at r id k
+  end.
+Definition term_result (fs : failspec) (id : N) (k : nat) : option (N * N) :=
+  if term_fails id then Some (id, 0) else match fails_at fs id k with Some kind => Some (id, kind) | None => None end.
+
+Fixpoint snext (fs : failspec) (k : nat) (s : wstream) (e : wentry) : wstream * option (N * N) * list (N * wentry) :=
+  match s with
+  | STerm id => (s, term_result fs id k, [(id, e)])
+  | SMergeGlobals s' g =>
+      let '(s1, r, d) := snext fs k s' (MergedRef g e) in (SMergeGlobals s1 g, r, d)
+  | SMergeGDims s' dm deny =>
+      let '(s1, r, d) := snext fs k s' (match dm with [] => ContE CRef e | _ => WithGDimsE (ContE CRef e) dm deny end) in
+      (SMergeGDims s1 dm deny, r, d)
+  | SForce s' f => let '(s1, r, d) := snext fs k s' (ForceE (ContE CRef e) f) in (SForce s1 f, r, d)
+  | STee a b =>
+      let '(a1, r1, d1) := snext fs k a e in
+      let '(b1, r2, d2) := snext fs k b e in          (* both sides evaluated: r1.and(r2) with eager r2 *)
+      (STee a1 b1, match r1 with Some x => Some x | None => r2 end, d1 ++ d2)
+  | SOutputTo s' => let '(s1, r, d) := snext fs k s' e in (SOutputTo s1, r, d)
+  end.
+
+(* entries k, k+1, ... through one instance *)
+Fixpoint sfeed (fs : failspec) (k : nat) (s : wstream) (es : list wentry) : list (option (N * N) * list (N * wentry)) :=
+  match es with
+  | [] => []
+  | e :: r => let '(s1, res, d) := snext fs k s e in (res, d) :: sfeed fs (Datatypes.S k) s1 r
+  end.
